@@ -6,6 +6,7 @@
 -/
 import OpmVerif.Gen.RstSlots
 import OpmVerif.Proofs.RstWindow
+import OpmVerif.Model.RstLayout
 import Mathlib.Tactic.Ring
 import Mathlib.Algebra.Field.Basic
 
@@ -52,6 +53,11 @@ theorem window_size_mono (arr : String) (nt : Nat) : windowSize arr 0 ≤ window
   repeat' split
   all_goals omega
 
+/-- Every pinned (enum, name) still has its pinned number in the regenerated tables: the file layout
+other readers rely on has not moved. -/
+theorem layout_pinned :
+    ∀ q ∈ RstLayout.pinned, ∀ nv ∈ q.2, (enumOf q.1).lookup nv.1 = some nv.2 := by decide +kernel
+
 /-- Fields whose reader shape is *not* the inverse of the writer shape in the table, with the reason. -/
 def declaredExceptions : List (String × String) :=
   [("well.wtest_remaining", "the +1 is applied inside WellTestState::restart_well (num_test = conf.num_test + 1 - attempts)"),
@@ -69,6 +75,17 @@ theorem reader_pairs_classified :
 
 /-- LoadRestart.cpp (data::Wells, cumulatives): same statement, no exception. -/
 theorem loader_pairs_classified : ∀ p ∈ pairs writer loader, pairCls p ≠ .mismatch := by decide +kernel
+
+/-- Every reader field with a stated meaning receives only the summary vectors of that meaning (a slot
+swapped on one side only — e.g. `xw.bhp` read from the THP item — breaks this). -/
+theorem field_meanings :
+    ∀ p ∈ pairs writer (reader ++ loader), ∀ allowed, fieldMeaning.lookup p.2.field = some allowed →
+      ∀ k ∈ p.1.rpre.core.smryKeys, k ∈ allowed := by decide +kernel
+
+/-- … and each such field is indeed fed by a writer entry. -/
+theorem field_meanings_fed :
+    ∀ fm ∈ fieldMeaning, ∃ p ∈ pairs writer (reader ++ loader), p.2.field = fm.1 ∧ p.1.rpre.core.smryKeys ≠ [] := by
+  decide +kernel
 
 /-- Every declared exception occurs (the list cannot go stale). -/
 theorem exceptions_all_occur :
